@@ -174,6 +174,7 @@ func checkC19(c *Ctx, r *Report) {
 	r.Undecided = []string{"timing: whether a given delay pattern actually produces a stale answer", "fairness of select"}
 	r.rule("C19.R1", "the answer is correlated with the request before it is returned to the charging operation", 2)
 	r.rule("C19.R2", "the Diameter answer handler cannot block for ever on the hand-over channel", 2)
+	r.rule("C19.R4", "the connection of a request that gives up is closed on every path (an abandoned request's answer cannot be delivered later; shared with C18.R1)", 2)
 	r.rule("C19.R3", "the per-subscriber answer channel has one kind of receiver: the client function that sent the request", 2)
 
 	for _, a := range [][3]string{
@@ -245,6 +246,30 @@ func checkC19(c *Ctx, r *Report) {
 	}
 
 	c19SingleConsumer(c, r, "C19.R3")
+
+	// R4: as long as answers are not correlated (R1), what keeps the answer of a
+	// timed-out request away from the subscriber's next request is that the
+	// per-request connection is closed when the request gives up
+	for _, a := range [][2]string{{"internal/abmf", "SendAccountDebitRequest"}, {"internal/rating", "SendServiceUsageRequest"}} {
+		f := c.fn(a[0], a[1])
+		nd := 0
+		eachInstr(f, func(_ *ssa.BasicBlock, _ int, ins ssa.Instruction) {
+			call, ok := ins.(*ssa.Call)
+			if !ok {
+				return
+			}
+			obj := calleeObj(&call.Call)
+			if obj == nil || obj.Pkg() == nil || !strings.HasPrefix(obj.Name(), "Dial") || (obj.Pkg().Path() != smPath && obj.Pkg().Path() != diamPath) {
+				return
+			}
+			nd++
+			ok2, why := connReleased(c, f, call)
+			r.check(ok2, "C19.R4", fmt.Sprintf("%s|%s", fnKey(f), obj.Name()), posOf(c, ins), why, why+": the connection of a request that timed out stays open, so its late answer is still delivered into the subscriber's channel and is taken as the answer of the next request")
+		})
+		if nd == 0 {
+			r.viol("C19.R4", fnKey(f)+"|dial", c.rel(f.Pos()), "the client function does not dial a per-request connection")
+		}
+	}
 
 	for _, a := range [][2]string{{"internal/abmf", "HandleCCA"}, {"internal/rating", "HandleSUA"}} {
 		outer := c.fn(a[0], a[1])
